@@ -104,7 +104,8 @@ func (c *ctx) realClientConn(i int) {
 		_, e := replyH[op]
 		return a || b || d || e
 	}
-	nReq := 0 // requests that must have reached the wire so far
+	nReq := 0  // requests that must have reached the wire so far
+	nRead := 0 // replies Send has returned so far
 	for k, op := range cs.Ops {
 		if op.Kind != "send" || op.Pkt == nil {
 			continue
@@ -167,11 +168,16 @@ func (c *ctx) realClientConn(i int) {
 			c.v(cls, "client op %d %s: body on the wire %s is not the cleartext %s XOR the RFC pad", k, hstr(h), trunc(wire[model.HeaderLen:]), trunc(clear))
 			return
 		}
-		// ---- reply direction
-		var sr *plan.SrvReply
-		if nReq-1 < len(cs.SrvReplies) {
-			sr = &cs.SrvReplies[nReq-1]
+		// ---- reply direction: the n-th Send returns the n-th reply on the stream (requests
+		// sent with SendOnly leave theirs for a later Send)
+		if ps.Only {
+			continue
 		}
+		var sr *plan.SrvReply
+		if nRead < len(cs.SrvReplies) {
+			sr = &cs.SrvReplies[nRead]
+		}
+		nRead++
 		if sr == nil || sr.Pkt == nil {
 			continue
 		}
